@@ -47,9 +47,27 @@ def check_into(inst, I, ctx, path, item):
         ctx.violation('into-cast', inst, item, 'returns %s, required the discriminant of its argument (`self as %s`)' % (' | '.join(show(a[1]) for a in alts), inst.repr),
                       key='%s/into-cast/%s' % (ctx.prop, item), construct=GEN_FILE[item])
 
+def extra_cases(tier):
+    from corpus import rejects as RJ
+    cs = [RJ.big_enum_case(65534, 'C11', 'accept')]
+    cs[0]['class'] = 'size/65534-largest-supported'
+    attrs = ['#[allow(dead_code)]', '/// documentation on the enum', '#[doc = "more"]', '#[cfg_attr(all(), allow(unused))]', '#[must_use]', '#[non_exhaustive]']
+    body = ['#[derive(Clone, Copy, EnumTools, PartialEq, Eq, PartialOrd, Ord, Hash, Debug)]'] + attrs + ['#[enum_tools(into, try_from, MIN, MAX, next, next_back, iter, names, as_str, from_str, range, Display, FromStr, Into, IntoStr, TryFrom)]', '#[repr(i16)]',
+            'pub enum E { /// first', '#[allow(unused)] A = -3, #[doc = "b"] #[cfg_attr(all(), allow(dead_code))] B, #[deprecated] C = 0x10, /** block doc */ #[enum_tools(rename = "dd")] #[allow(non_camel_case_types)] D_d = 0b1_0001, }']
+    cs.append(RJ.case('c11_foreign_attrs', 'C11', 'foreign-attributes', body, 'accept'))
+    body2 = ['#[derive(Clone, Copy, EnumTools)]', '#[enum_tools(into, MIN, MAX, try_from)]', '#[repr(u64)]', '#[allow(clippy::all)]', 'pub enum E { A = 0o17, B = 1_0, C = 0xFFu64, D = 9_223_372_036_854_775_807, }']
+    cs.append(RJ.case('c11_spellings', 'C11', 'literal-spellings', body2, 'accept'))
+    body3 = ['#[derive(Clone, Copy, EnumTools)]', '#[enum_tools(into, MIN, MAX, try_from, next)]', '#[repr(i64)]', 'pub enum E { A = -9_223_372_036_854_775_808, B = -0x7FFF_FFFF_FFFF_FFFF, C = -0b1, D = -0o7i64, E = -0 }']
+    cs.append(RJ.case('c11_negative_spellings', 'C11', 'negated-literal-spellings', body3, 'accept'))
+    return cs
+
 def main(tier, seed, t0):
     st, d = runner.stage_inst(tier, seed)
     ctx, n = runner.run_instances('props.c11', d)
+    cases = extra_cases(tier)
+    bst, br = runner.stage_batch('c11-' + tier, cases)
+    runner.judge_batch(ctx, cases, br, PROP)
+    ctx.programs |= {c['id'] for c in cases}
     return runner.finish(PROP, tier, seed, 'translation_validation', ctx, t0,
                          coverage_extra={'instances_in_corpus': n, 'cache_hit': st.hit, 'tree': st.tree},
                          assumptions=['the quantifier over all declarations is covered by the class-structured corpus of DESIGN.md 3.3, not closed'])
